@@ -31,6 +31,9 @@ CLAIM += (' The load half of the hand-written loop XORs r(8+j) with the j-th qua
 
 EXPLANATION += ' X86-DSITEM.'
 
+EXPLANATION += ' VM-INITORDER, X86-ISA-BASE.'
+CLAIM += (' No run() reads a member that randomx_vm::initialize() derives from the program before it has called initialize() (VM-INITORDER); the hand-written runtime uses only baseline x86-64 instructions outside the hardware-AES fragments (X86-ISA-BASE).')
+
 
 def run(ctx, R):
     FI = astq.Facts(ctx, 'K0')
